@@ -5,13 +5,14 @@ package main
 var fixedOps = []string{
 	// regression inputs of the repaired findings KF-C12-4, -2, -3, -6, -7 (spec-backed since the repair: on a tree
 	// without the repairs each of these lines is a concrete failing input of the property)
-	"spec 4 date t -43200 0", "spec 4 date i int64 -1", "spec 4 date t -1 999999999", "spec 4 date i int64 -86400001",
-	"spec 4 bigint big 5", "spec 4 counter big -1", "spec 4 bigint big 9223372036854775807", "spec 4 bigint big -9223372036854775808",
-	"spec 4 duration ni int64 1", "spec 4 duration ni int64 -9223372036854775808",
-	"spec 4 tuple 2 int text ifs 2 nilptr s 41", "spec 4 tuple 2 int text ifs 2 ptr nilptr s 41", "spec 4 tuple 2 blob text ifs 2 bnil s 41",
+	"spec 4 date t -43200 0", "spec 4 bigint big 5", "spec 4 duration ni int64 1", "spec 4 tuple 2 int text ifs 2 nilptr s 41", "spec 4 tuple 1 int nil",
+	"spec 4 date i int64 -1", "spec 4 date t -1 999999999", "spec 4 date i int64 -86400001",
+	"spec 4 counter big -1", "spec 4 bigint big 9223372036854775807", "spec 4 bigint big -9223372036854775808",
+	"spec 4 duration ni int64 -9223372036854775808",
+	"spec 4 tuple 2 int text ifs 2 ptr nilptr s 41", "spec 4 tuple 2 blob text ifs 2 bnil s 41",
 	"spec 4 tuple 2 blob text st 2 bnil s 41", "spec 4 tuple 2 blob blob sl bytes 2 bnil b 41", "spec 4 tuple 2 blob blob arr bytes 2 b 41 bnil",
 	"spec 4 tuple 2 int text st 2 nil s 41", "spec 4 tuple 2 list int text ifs 2 slnil k int s 41",
-	"spec 4 tuple 1 int nil", "spec 3 list tuple 1 int ifs 2 nil ifs 1 i int 1",
+	"spec 3 list tuple 1 int ifs 2 nil ifs 1 i int 1",
 	"enc 4 bigint big 9223372036854775808", "enc 4 bigint big -9223372036854775809", "cls 4 bigint big 9223372036854775808",
 	// D9 unsigned wrap
 	"enc 4 smallint i uint16 65535", "cls 4 smallint i uint16 65535",
